@@ -1,0 +1,42 @@
+//! Verification-only tracing of the parser's primitive operations.
+//!
+//! Compiled only with `--cfg apollo_rs_verif`. Events are collected in a
+//! thread-local sink that is off unless a harness thread installs one.
+
+use std::cell::RefCell;
+
+/// One primitive operation of the parser object.
+#[derive(Debug, Clone, PartialEq, Eq)]
+pub struct Event {
+    /// Action name (`LexTok`, `LexErr`, `Pop`, `Pend`, `Flush`, `Tok`, `Start`, `Finish`,
+    /// `Ckpt`, `Wrap`, `Err`, `LimitErr`, `Inc`, `Dec`, `Top`).
+    pub name: &'static str,
+    pub a: u64,
+    pub b: u64,
+    pub c: u64,
+}
+
+thread_local! {
+    static SINK: RefCell<Option<Vec<Event>>> = const { RefCell::new(None) };
+}
+
+/// Start recording events on the current thread.
+pub fn install() {
+    SINK.with(|s| *s.borrow_mut() = Some(Vec::new()));
+}
+
+/// Stop recording and return the events recorded on the current thread.
+pub fn take() -> Vec<Event> {
+    SINK.with(|s| s.borrow_mut().take().unwrap_or_default())
+}
+
+#[inline]
+pub(crate) fn emit(name: &'static str, a: u64, b: u64, c: u64) {
+    SINK.with(|s| {
+        if let Ok(mut s) = s.try_borrow_mut() {
+            if let Some(v) = s.as_mut() {
+                v.push(Event { name, a, b, c });
+            }
+        }
+    });
+}
